@@ -11,12 +11,58 @@ import (
 )
 
 func FromRawDN(dn []byte) string {
-	var rdns pkix.RDNSequence
-	rest, err := asn1.Unmarshal(dn, &rdns)
-	if err != nil || len(rest) > 0 {
+	rdns, err := parseRawDN(dn)
+	if err != nil {
 		return hex.EncodeToString(dn)
 	}
 	return FromRDNSequence(rdns)
+}
+
+// attributeTypeAndValue and relativeDistinguishedNameSET mirror the pkix types of the
+// same names but keep the DER encoding of each value: a value that has no string form is
+// shown as '#' followed by the hex of its encoding (RFC 4514, 2.4), which pkix's decoding
+// into `any` cannot give back (unknown types become nil, times are re-encoded).
+type attributeTypeAndValue struct {
+	Type  asn1.ObjectIdentifier
+	Value asn1.RawValue
+}
+
+type relativeDistinguishedNameSET []attributeTypeAndValue
+
+func parseRawDN(dn []byte) (pkix.RDNSequence, error) {
+	var raw []relativeDistinguishedNameSET
+	rest, err := asn1.Unmarshal(dn, &raw)
+	if err != nil {
+		return nil, err
+	}
+	if len(rest) > 0 {
+		return nil, asn1.SyntaxError{Msg: "trailing data after the name"}
+	}
+	rdns := make(pkix.RDNSequence, len(raw))
+	for i, set := range raw {
+		for _, atv := range set {
+			value, err := attributeValue(atv.Value)
+			if err != nil {
+				return nil, err
+			}
+			rdns[i] = append(rdns[i], pkix.AttributeTypeAndValue{Type: atv.Type, Value: value})
+		}
+	}
+	return rdns, nil
+}
+
+// attributeValue decodes the string types pkix decodes and keeps any other value as DER.
+func attributeValue(v asn1.RawValue) (any, error) {
+	if v.Class == asn1.ClassUniversal && !v.IsCompound {
+		switch v.Tag {
+		case asn1.TagPrintableString, asn1.TagNumericString, asn1.TagIA5String,
+			asn1.TagT61String, asn1.TagUTF8String, asn1.TagBMPString:
+			var s string
+			_, err := asn1.Unmarshal(v.FullBytes, &s)
+			return s, err
+		}
+	}
+	return v, nil
 }
 
 func FromRDNSequence(rdns pkix.RDNSequence) string {
